@@ -308,6 +308,7 @@ struct Helper {
     std::atomic<int> cmd{0};     // 0 none, 1 run, 2 exit
     std::atomic<int> state{H_IDLE};
     std::atomic<long> tid{0};
+    std::atomic<int> ready{0};
     Ctx *c = nullptr;
     long kind = 0, obj = 0;
     bool has_ev = false;
@@ -326,6 +327,8 @@ static void helper_main(int t) {
     Helper &h = g_helpers[t];
     h.tid.store((long)syscall(SYS_gettid));
     coro_queue::install_queue_and_call([] {});   // thread-local queue warm-up
+    h.ready.store(1);
+    h.ready.notify_all();
     for (;;) {
         h.cmd.wait(0);
         int cmd = h.cmd.exchange(0);
@@ -886,6 +889,7 @@ int main(int argc, char **argv) {
     // warm-up: touch the thread-local ready queue (libstdc++ deque constructor allocates) and start the helper threads
     coro_queue::install_queue_and_call([] {});
     for (int t = 0; t < NH; t++) g_helpers[t].th = std::thread(helper_main, t);
+    for (int t = 0; t < NH; t++) g_helpers[t].ready.wait(0);   // their warm-up allocations must not fall into a measured step
     auto cases = vh::read_cases(argv[1]);
     for (auto &cs : cases) {
         std::printf("CASE %s\n", cs.name.c_str());
